@@ -19,7 +19,7 @@ pub fn property() -> Property {
         rule: "cases are histories. Naive Bayes: n 4..=60 rows, 1..=4 features, 2..=4 classes (usize or String labels; orderings random / sorted blocks / one singleton class / reverse blocks), \
                a composition of n into 1..=n ordered non-empty batches (cut density 0, 1/32, 5/32, 1/2, 1), smoothing in {0, 1e-9, 1e-3, 0.1, 1}; \
                non-trivial = at least 3 batches and at least one batch that lacks a class of the dataset. \
-               Mini-batch k-means: 1..=8 batches of 1..=30 rows, k 1..=4, precomputed or seeded (random, k-means++, k-means||) initialisation, tolerance in {1e-6, 1e-2, 10}; \
+               Mini-batch k-means: 1..=8 batches of 1..=30 rows, k 1..=4, precomputed or seeded (random, k-means++, k-means||) initialisation, distance function L2 / L1 / LInf (2:1:1), tolerance in {1e-6, 1e-2, 0.5, 2, 10}; \
                non-trivial = some cluster receives rows in at least 2 batches. \
                FTRL: 1..=10 batches of 1..=20 rows, 1..=5 features, alpha in {0.005, 0.1, 1}, beta in {0, 1}, l1/l2 in {0, 0.1, 0.5, 1}, seeded initial z, batches applied through fit_with or predict+update; \
                non-trivial = at least 2 updates. distinct = distinct canonical JSON of the case",
@@ -30,8 +30,8 @@ pub fn property() -> Property {
             format!("predictions: a predicted class must reach the maximal log-posterior recomputed from the model's own statistics within {:e}*(1 + magnitude of the terms); it must equal the textbook arg-max only where the textbook margin exceeds {:e}*(1 + magnitude); posterior ties may be broken either way", nb::TOL_MARGIN, nb::CROSS_MARGIN),
             "Gaussian NB with var_smoothing = 0 and a class that has zero variance in a feature: the density is undefined, predictions are not judged (statistics still are)".into(),
             "multinomial posterior uses the convention 0 * ln 0 = 0 (a feature that does not occur in the sample contributes nothing)".into(),
-            format!("k-means: counts exact, centroids within {:e}*scale of the row-by-row running mean replayed from the state linfa reported before the batch; inertia = mean squared distance to the nearest pre-batch centroid (relative {:e}); two centroids whose squared distances differ by <= {:e}*(1+scale^2) count as tied and linfa's own predict on the pre-batch model decides (it must name a tied centroid)", kmeans::TOL_CENTROID, kmeans::TOL_INERTIA, kmeans::TOL_TIE),
-            format!("k-means converged flag: Ok <=> Frobenius distance(old, new centroids) < tolerance, not judged when the two differ by <= {:e} relative", kmeans::TOL_FLAG),
+            format!("k-means: counts exact, centroids within {:e}*scale of the row-by-row running mean replayed from the state linfa reported before the batch; assignment by the metric's reduced distance (L2: squared distance; L1, LInf: the distance itself), inertia = mean minimal reduced distance to the pre-batch centroids (relative {:e}); two centroids whose reduced distances differ by <= {:e}*(1+scale^q) (q = 2 for L2, 1 otherwise) count as tied and linfa's own predict on the pre-batch model decides (it must name a tied centroid)", kmeans::TOL_CENTROID, kmeans::TOL_INERTIA, kmeans::TOL_TIE),
+            format!("k-means converged flag: Ok <=> the metric's true distance between the old and new centroid matrices (L2: Frobenius norm, L1: sum of |entries|, LInf: largest |entry| of the difference; recomputed by the harness, never through linfa-nn) < tolerance, not judged when the two differ by <= {:e} relative", kmeans::TOL_FLAG),
             format!("k-means seeded initialisation: the initial centroids are not observable; for the first batch all tuples of distinct batch rows are tried as initial centroids when there are <= {} of them (one must reproduce the model through the recurrence), otherwise only necessary conditions are checked (counts sum to the batch size, untouched centroids are batch rows, touched centroids lie in the bounding box); k-means|| is excluded from the same-history-same-model comparison (its candidate sampling is scheduled by rayon; C20 covers it)", kmeans::ENUM_CAP),
             "k-means: Random initialisation needs at least k rows in the first batch (k is clamped)".into(),
             format!("FTRL: every step is replayed from the (z, n) linfa reported before it; z, n and weights within {:e} of the sum of magnitudes entering the update (sigma's cancellation error eps*sqrt(n+g^2)/alpha included); probabilities are rounded to f32 as linfa's Pr type does; a case in which a probability sits within float error of an f32 rounding boundary is skipped; predict within {:e}", ftrl::TOL_STATE, ftrl::TOL_PROB),
